@@ -190,7 +190,7 @@ func TestVerifC18CrashTickets(t *testing.T) {
 	for _, c := range []string{"get", "store", "get-all"} {
 		e.Floor("crash-tickets-cont-"+c+"/crash-tickets", 0.10)
 	}
-	e.Floor("crash-tickets-during-get/crash-tickets", 0.01)
+	e.Floor("crash-tickets-traces-with-a-redeeming-get/crash-tickets-traces", 0.7)
 	tornAll := ev.Thorough()
 	maxOps, maxPool := 6, 4
 	if tornAll {
@@ -228,6 +228,37 @@ func TestVerifC18CrashTickets(t *testing.T) {
 		}
 		model := vf18StoreContent(s)
 		ops := vf18DrawTicketOps(rt, "run", rapid.IntRange(1, maxOps).Draw(rt, "nops"), pool, holding)
+		// Every trace contains a getTicket that rewrites the file (redeems a held
+		// ticket), if need be as an appended last operation.  (A floor on the share
+		// of crash *states* inside a get is not robust: a get that leaves "{}" has
+		// one torn state, a store of one ticket has 289.)
+		effectiveGet := false
+		{
+			h := map[string]bool{}
+			for a := range model {
+				h[a] = true
+			}
+			for _, op := range ops {
+				a := vf18Addr(op.Addr).String()
+				if op.Op == "get" && h[a] {
+					effectiveGet = true
+				}
+				if op.Op == "store" {
+					h[a] = true
+				} else {
+					delete(h, a)
+				}
+			}
+			if !effectiveGet && len(h) > 0 {
+				var held []string
+				for a := range h {
+					held = append(held, a)
+				}
+				sort.Strings(held)
+				ops = append(ops, vf18TicketOp{Op: "get", Addr: held[0]})
+				effectiveGet = true
+			}
+		}
 		desc := fmt.Sprintf("pre-state %v (built by %v); traced operations %v", model, preOps, ops)
 
 		// models before/after each traced operation
@@ -485,6 +516,9 @@ func TestVerifC18CrashTickets(t *testing.T) {
 		vf18TicketStates += nstates
 		vf18TicketTorn += ntorn
 		e.Class("crash-tickets-traces", 1)
+		if effectiveGet {
+			e.Class("crash-tickets-traces-with-a-redeeming-get", 1)
+		}
 		e.Set("crash_states_tickets", vf18TicketStates)
 		e.Set("crash_states_tickets_torn", vf18TicketTorn)
 	})
